@@ -29,13 +29,13 @@ RULE = ('one evaluation = one injected fault (class, k) into wn.add of a generat
 ASSUMPTIONS = ['unit of atomicity: one resource for add, one matched lexicon with its extensions for remove (DESIGN C06)',
                'a fault that fires after the operation committed is not an interrupted operation: then the completed state is the only other admissible one']
 FLOORS = {'*': {'fault.progress.interrupted': 20, 'fault.auth.interrupted': 20, 'fault.line.interrupted': 40,
-                'fault.vmabort.interrupted': 5, 'fault.corrupt.interrupted': 10}}
+                'fault.vmabort.interrupted': 5, 'fault.corrupt.interrupted': 10, 'big-add.failed-adds': 2}}
 N = {'quick': 32, 'thorough': 200}
 LIMIT = {'quick': dict(progress=40, auth=30, line=80, vmabort=24, rline=30, rauth=20), 'thorough': dict(progress=10 ** 6, auth=10 ** 6, line=10 ** 6, vmabort=150, rline=10 ** 6, rauth=10 ** 6)}
 
 
 def plan(tier, seed):
-    return [{'kind': 'big-remove', 'seed': seed, 'tier': tier}] + [{'seed': seed * 1000003 + i, 'lmfver': doc.LMF_VERSIONS[1 + i % 3] if i % 4 else '1.0', 'tier': tier} for i in range(N[tier])]
+    return [{'kind': 'big-remove', 'seed': seed, 'tier': tier}, {'kind': 'big-add', 'seed': seed, 'tier': tier}] + [{'seed': seed * 1000003 + i, 'lmfver': doc.LMF_VERSIONS[1 + i % 3] if i % 4 else '1.0', 'tier': tier} for i in range(N[tier])]
 
 
 def pick(ks, limit, r):
@@ -98,7 +98,55 @@ def big_remove(case, rec):
                                                                      'handler_calls': calls['n']})
 
 
+def big_add(case, rec):
+    """an add large enough to cross the library's batch size (1000 rows per executemany) in every bulk table, failing late:
+    whatever a batch boundary does (flush, commit, checkpoint) must still be undone by the failure"""
+    import wn
+    r = random.Random(case['seed'] + 17)
+    prof = doc.Profile(max_entries=1500, max_synsets=1500, hostile=0.02, idstyle='prefixed')
+    lex = None
+    while lex is None or len(lex.get('entries', [])) < 1100 or len(lex.get('synsets', [])) < 1100:
+        lex = doc.gen_lexicon(r, '1.1', 'bigadd', '1', prof)
+    small = doc.gen_lexicon(r, '1.1', 'keep', '1', doc.Profile(max_entries=3, max_synsets=3))
+    good = {'lmf_version': '1.1', 'lexicons': [lex]}
+    work = env.mkdtemp('c06bigadd')
+    tried = 0
+    try:
+        with env.FreshDB() as fdb:
+            wnio.add(wnio.write_resource({'lmf_version': '1.1', 'lexicons': [small]}, work, random.Random(1), name='small.xml'))
+            before = dbdump.dump(fdb.path)
+            for kind, bad in corruptions(good, r):
+                path = wnio.write_resource(bad, work, random.Random(2), name='bad.xml')
+                try:
+                    wnio.add(path)
+                except Exception as exc:   # noqa: BLE001 - any failure is the expected outcome
+                    del exc
+                else:
+                    continue   # the library accepts this document (duplicates may be legal): nothing to decide
+                tried += 1
+                rec.event('big-add.failed-adds')
+                after = dbdump.dump(fdb.path)
+                changed = [t for t in before if before[t] != after.get(t)]
+                if changed:
+                    rec.violation('add:big-lexicon:' + kind.split('@')[0], f'failed add of a {len(lex["entries"])}-entry lexicon ({kind}) '
+                                  f'changed tables {changed[:6]}; lexicons now {sorted(x.specifier() for x in wn.lexicons())}')
+                    break
+            wnio.add(wnio.write_resource(good, work, random.Random(3), name='good.xml'))
+            if sorted(x.specifier() for x in wn.lexicons()) != ['bigadd:1', 'keep:1']:
+                rec.violation('add:big-lexicon:retry', 'a valid add after the failed large adds did not install the lexicon')
+            elif len(wn.Wordnet('bigadd:1').words()) != len(lex['entries']):
+                rec.violation('add:big-lexicon:retry', 'the valid add after the failed large adds stored a different number of words')
+            for key, msg in dbdump.audit(fdb.path):
+                rec.violation('add:big-lexicon:' + key, msg)
+    finally:
+        env.rmtree(work)
+    rec.done(['big-add', case['seed']], nontrivial=True, sample={'operation': 'failed adds of a large lexicon', 'entries': len(lex['entries']),
+                                                                  'synsets': len(lex['synsets']), 'failed_adds': tried})
+
+
 def run_case(case, rec):
+    if case.get('kind') == 'big-add':
+        return big_add(case, rec)
     if case.get('kind') == 'big-remove':
         return big_remove(case, rec)
     import wn
